@@ -34,7 +34,7 @@ fn main() {
             let id = args.get(2).cloned().unwrap_or_default();
             let tier = arg_value(&args, "--tier").or_else(|| std::env::var("VERIF_TIER").ok()).unwrap_or_else(|| "quick".to_string());
             let seed: u64 = arg_value(&args, "--seed").or_else(|| std::env::var("VERIF_SEED").ok()).and_then(|s| s.parse().ok()).unwrap_or(20260923);
-            let budget: u64 = arg_value(&args, "--budget").and_then(|s| s.parse().ok()).unwrap_or(if tier == "thorough" { 3000 } else { 600 });
+            let budget: u64 = arg_value(&args, "--budget").and_then(|s| s.parse().ok()).unwrap_or(if tier == "thorough" { 2400 } else { 600 });
             match id.as_str() {
                 "C17" => match check::engine_report("C17", &tier, seed, budget) {
                     Some(mut rep) => {
